@@ -32,10 +32,10 @@ var (
 	Local = time.Local
 )
 
-func Now() Time                  { return rt.Now() }
-func Since(t Time) Duration      { return rt.Now().Sub(t) }
-func Until(t Time) Duration      { return t.Sub(rt.Now()) }
-func Unix(s, n int64) Time       { return time.Unix(s, n) }
+func Now() Time             { return rt.Now() }
+func Since(t Time) Duration { return rt.Now().Sub(t) }
+func Until(t Time) Duration { return t.Sub(rt.Now()) }
+func Unix(s, n int64) Time  { return time.Unix(s, n) }
 func Date(y int, m Month, d, h, mi, s, ns int, l *Location) Time {
 	return time.Date(y, m, d, h, mi, s, ns, l)
 }
